@@ -26,6 +26,10 @@ MAX_DEPTH = 4
 MAX_STMTS = 4000
 
 
+# private attributes the rules of group F are written about (never replaced by a property that exposes them)
+KEEP_PRIVATE = {"_computed", "_avoidbound", "_avoidedges", "_output_mesh", "_par", "_indx", "_siz", "_has_features"}
+
+
 def is_private(name):
     return name.startswith("_") and not (name.startswith("__") and name.endswith("__"))
 
@@ -253,6 +257,7 @@ class Flattener:
             return new
         self.stack.append(id(fn))
         try:
+            self._property_fields(new, scope)
             self._spelling(new)
             new.body = self._desugar_block(new.body) or [ast.Pass()]
             new.body = self._inline_block(new.body, new, scope, depth)
@@ -679,6 +684,36 @@ class Flattener:
                 st.body = [ast.copy_location(ast.Pass(), st)]
             out.append(st)
         return out
+
+    def _property_fields(self, fn, scope):
+        """a private attribute that the class exposes through a plain property (`@property def x(self): return self._x`, possibly with a plain
+        setter) is written with the public name: self._x -> self.x"""
+        if scope.cls is None:
+            return
+        cmod, ccls = scope.cls
+        try:
+            ms = scope.repo.methods(cmod, ccls)
+        except Exception:
+            return
+        alias = {}
+        for name, (m, f, owner) in ms.items():
+            decos = {au.src(d) for d in f.decorator_list}
+            body = strip_doc(f.body)
+            if "property" in decos and len(body) == 1 and isinstance(body[0], ast.Return) and isinstance(body[0].value, ast.Attribute) \
+                    and isinstance(body[0].value.value, ast.Name) and body[0].value.value.id == "self" and body[0].value.attr != name \
+                    and body[0].value.attr not in KEEP_PRIVATE:
+                alias[body[0].value.attr] = name
+        if not alias or fn.name in alias.values():
+            return
+
+        class T(ast.NodeTransformer):
+            def visit_Attribute(self, n):
+                self.generic_visit(n)
+                if isinstance(n.value, ast.Name) and n.value.id == "self" and n.attr in alias:
+                    n.attr = alias[n.attr]
+                return n
+        for i, st in enumerate(fn.body):
+            fn.body[i] = T().visit(st)
 
     # ---------------------------------------------------------------- F0 spelling of expressions
     MIRROR = {ast.Lt: ast.Gt, ast.Gt: ast.Lt, ast.LtE: ast.GtE, ast.GtE: ast.LtE, ast.Eq: ast.Eq, ast.NotEq: ast.NotEq, ast.Is: ast.Is, ast.IsNot: ast.IsNot}
